@@ -204,6 +204,8 @@ def zernike_nm_der(n, m, r, t, norm=True):
     #
     # in azimuth it's the other way around: regular old Zernike computation,
     # multiplied by d/dt ( cost )
+    # the derivatives are floating point, also on an integer grid
+    r = np.asarray(r, dtype=np.result_type(r, 1.0))
     x = 2 * r ** 2 - 1
     am = abs(m)
     n_j = (n - am) // 2
@@ -272,7 +274,8 @@ def zernike_nm_der_seq(nms, r, t, norm=True):
     """
     # TODO: actually implement the recurrence relation as in zernike_seq,
     # instead of just using a loop for API homogenaeity
-    out = np.empty((len(nms), 2, *r.shape), dtype=r.dtype)
+    # rows hold what the recurrence produces: floats, also for integer coordinates
+    out = np.empty((len(nms), 2, *r.shape), dtype=np.result_type(r, 1.0))
     for j, (n, m) in enumerate(nms):
         tmp = zernike_nm_der(n, m, r, t, norm=norm)
         out[j] = tmp
